@@ -34,6 +34,7 @@ fn check_name(s: &str, ev: &mut Ev) -> Outcome {
     if want.main.is_some() || want.chronobox.is_some() || want.seq2 {
         ev.nontrivial(fingerprint(s));
         ev.label("name:accepted");
+        ev.sample(|| format!("name {s:?} -> {:?}", want.main.clone().or(want.chronobox.clone())));
     }
     Ok(())
 }
@@ -202,6 +203,9 @@ fn check_run(run: u32, full_pads: bool, ev: &mut Ev) -> Outcome {
             let r = TpcPadPosition::try_new(run, pwb(b), AfterId::try_from(0).unwrap(), PadChannelId::try_from(1).unwrap());
             ensure!(r.is_err(), "pwb-map-dispatch", "run {run}: pad lookup succeeds although no PWB map exists");
         }
+    }
+    if run % 5000 == 4418 % 5000 {
+        ev.sample(|| format!("run {run}: wire map {} entries, {} installed PWBs", w.len(), p.iter().flatten().count()));
     }
     for b in [2940u32, 2941, 4417, 4418, 10417, 10418, 2723, 2724, u32::MAX] {
         if run.abs_diff(b) <= 1 {
